@@ -5,11 +5,11 @@ prop("C11", "exploration",
      "reliable control tube; rapid draws 1..300 raw frames injected into the P->M stream: every flag combination, any tube id "
      "(never the control tube's own (reliability,id)), length field in {actual, actual+-1, 0, 1, 0x7FFF, 0x8000, 0xFFF3, 0xFFF4, "
      "0xFFFF}, datagrams truncated to 0..11 bytes, ack/frame numbers in {0,1,2,3,small,1000,2^31,2^31+1,2^32-2,2^32-1}, REQ/RESP "
-     "layouts with any tube type, with gaps and optionally interleaved honest traffic. Oracle: no panic; the control tube moves "
+     "layouts with any tube type, with gaps and optionally interleaved honest traffic, and (one case in three) further frames - biased to REQ - injected WHILE the muxer is stopping and the peer withholds its answers. Oracle: no panic; the control tube moves "
      "fresh data both ways during and after the junk; Muxer.Stop returns within 10 virtual seconds; no goroutine is left. "
      "Non-trivial = sequence with at least one internally inconsistent frame; distinct by case hash. Decoder half: random byte "
      "strings and mutations of valid encodings (every length/enum field set to {0,1,actual+-1,0xFF,0xFFFF,large}, every "
-     "truncation) into common.ReadString, codex.GetCmd/readSize, portforwarding.readPacket, the authgrants readers and "
+     "truncation) into common.ReadString, codex.GetCmd/readSize/getStatus, portforwarding.readPacket, the authgrants readers and "
      "userauth.GetInitMsg (over a real reliable tube); oracle: value or error, no panic, returns on a closed stream, bytes "
      "allocated during the call <= 256 KiB + 16 x len(input). Non-trivial there = input whose length fields disagree with its size.",
      ["junk never addresses the honest control tube's own (reliability, id): an authenticated peer can always disturb a tube it owns",
